@@ -58,6 +58,9 @@ func (x *Explorer) doCallVals(st *State, f *Frame, ins ssa.Instruction, c *ssa.C
 	allArgs := args
 	if c.IsInvoke() {
 		recv := fnv
+		if iv, ok := recv.(VIface); ok {
+			x.check(st, "nil-interface-call", Neq(iv.Tag, IntLit(0)), ins)
+		}
 		allArgs = append([]Val{recv}, args...)
 		// contract on the interface method: static type first, then the declaring interface
 		var keys []string
@@ -270,6 +273,13 @@ func (x *Explorer) atReturn(st *State, f *Frame, r *ssa.Return, vals []Val) {
 		g := env.evalBool(cl.Expr)
 		x.emit(st, "post", cl.Label, site, g, cl.Where)
 	}
+	for i, v := range vals {
+		if i < len(f.contract.Results) && f.contract.Fresh[f.contract.Results[i]] {
+			if p, ok := v.(VPtr); ok && p.Alloc == nil {
+				x.emit(st, "fresh", f.contract.Results[i], site, Or(Eq(p.Ref, IntLit(0)), And(Ge(p.Ref, IntLit(refBase)), Lt(p.Ref, IntLit(1000000000)))), filepath.Base(f.contract.File))
+			}
+		}
+	}
 	x.frameObligations(st, f, site, env)
 	// reachability of this return (vacuity guard)
 	x.obls = append(x.obls, &Obligation{Func: x.fnKey, Name: "cover[reach]", Kind: "cover", Label: "reach", Cover: true,
@@ -316,7 +326,11 @@ func (x *Explorer) applyContract(st *State, f *Frame, con *Contract, allArgs []V
 	env.oldHeap = old
 	durable := false
 	for _, m := range con.Modifies {
-		env.havocLoc(m.Expr)
+		if m.Heap != "" {
+			env.havocHeap(m.Heap)
+		} else {
+			env.havocLoc(m.Expr)
+		}
 		if m.Durable {
 			durable = true
 		}
@@ -445,10 +459,12 @@ func frameFormula(name string, cur, old *Term, mods []Loc, r *Term) *Term {
 	innerNew := Select(cur, r)
 	patched := Select(old, r)
 	for _, m := range mods {
-		if m.Name != name {
+		if m.Name != name && !(len(m.Idx) == 0 && strings.HasPrefix(name, m.Name+"#")) {
 			continue
 		}
 		switch {
+		case len(m.Idx) == 0:
+			return tTrue // the whole array is released
 		case len(m.Idx) == 1:
 			guard = append(guard, Neq(r, m.Idx[0]))
 		case len(m.Idx) == 2 && IsArrSort(innerNew.Sort):
@@ -471,6 +487,10 @@ func (x *Explorer) contractMods(st *State, f *Frame) []Loc {
 	env.inOld = true
 	env.withHeap(copyHeap(st.oldHeap), func() {
 		for _, m := range con.Modifies {
+			if m.Heap != "" {
+				mods = append(mods, Loc{Name: m.Heap})
+				continue
+			}
 			mods = append(mods, env.locs(m.Expr)...)
 		}
 	})
@@ -495,7 +515,7 @@ func (x *Explorer) frameObligations(st *State, f *Frame, site string, env *SpecE
 		if old == nil {
 			old = Sym("H0:"+name, cur.Sort)
 		}
-		if cur == old || cur.String() == old.String() {
+		if cur == old || onlyFreshStores(cur, old) {
 			continue
 		}
 		r := st.freshInt("frame_r")
@@ -511,4 +531,23 @@ func copyHeap(h map[string]*Term) map[string]*Term {
 		n[k] = v
 	}
 	return n
+}
+
+// onlyFreshStores: cur is old updated only at literal references of objects allocated during
+// the call - the frame condition then holds by construction.
+func onlyFreshStores(cur, old *Term) bool {
+	for depth := 0; depth < 100000; depth++ {
+		if cur == old {
+			return true
+		}
+		if cur.Op != "store" {
+			return cur.Op == old.Op && cur.Op == "sym" && cur.Name == old.Name
+		}
+		i := cur.Args[1]
+		if !i.IsLit() || !i.Int.IsInt64() || i.Int.Int64() < refBase || i.Int.Int64() >= 1000000000 {
+			return false
+		}
+		cur = cur.Args[0]
+	}
+	return false
 }
